@@ -112,6 +112,7 @@ TypeD(name, toks) == Nd("type", name, 0, E0, E0, E0, E0, toks)
 \*       "L" after the brace that opens a literal        "K" after a comma of a literal
 \*       "W" after the brace that opens the body of a switch and after the colon of a label: a line ends there, but the
 \*           interpreter accepts no comment between that brace and the first case / between the label and its loop
+\*       "F" a statement end after which the interpreter accepts no comment: around "fallthrough", inside "var ( )"
 \*       "A" after a comma of a call's argument list: a line may end there, but (the interpreter's line splitter looks at
 \*           the last character of the line) not with a comment
 \*       "T" optional trailing comma before the closing brace of a literal (present only when a break is taken there)
@@ -119,6 +120,7 @@ Tok(s)       == [s |-> s, b |-> "", g |-> "", q |-> "", y |-> E0, body |-> FALSE
 TokG(s, g)   == [Tok(s) EXCEPT !.g = g]
 TokB(s, g, b) == [Tok(s) EXCEPT !.g = g, !.b = b]
 SEP          == TokB(";", "l", "S")
+SEPF         == TokB(";", "l", "F")
 OPEN         == TokB("{", "", "O")
 BODYOPEN     == [OPEN EXCEPT !.body = TRUE]                          \* the brace that opens the body of a header statement
 SWOPEN       == [BODYOPEN EXCEPT !.b = "W"]
@@ -146,7 +148,7 @@ TypeToks(ty) == CASE ty = "[]int"   -> <<TokG("[", "r"), TokG("]", "b"), Tok("in
                   [] ty = ""        -> E0
                   [] OTHER          -> <<Tok(ty)>>
 
-RECURSIVE TkE(_), TkS(_), TkSs(_)
+RECURSIVE TkE(_), TkS(_), TkSs(_), NoCommentAtEnd(_)
 Names(xs) == Join([i \in DOMAIN xs |-> <<Tok(xs[i])>>], COMMA0)
 Exprs0(es) == Join([i \in DOMAIN es |-> TkE(es[i])], COMMA0)        \* on one line
 ExprsK(es) == Join([i \in DOMAIN es |-> TkE(es[i])], COMMA)         \* a break may follow each comma
@@ -194,7 +196,7 @@ TkH(s) ==
     [] s.k = "asg"   -> Exprs0(s.a) \o <<Tok(s.s)>> \o Exprs0(s.b)
     [] s.k = "inc"   -> TkE(s.a[1]) \o <<TokG(s.s, "l")>>
     [] s.k = "var"   -> <<Tok("var")>> \o Names(s.y) \o TypeToks(s.s) \o (IF s.a = E0 THEN E0 ELSE <<Tok("=")>> \o Exprs0(s.a))
-    [] s.k = "vgrp"  -> <<Tok("var"), TokB("(", "", "O")>> \o Cat([i \in DOMAIN s.b |-> Tail(TkH(s.b[i])) \o <<SEP>>]) \o <<Tok(")")>>
+    [] s.k = "vgrp"  -> <<Tok("var"), TokB("(", "", "W")>> \o Cat([i \in DOMAIN s.b |-> Tail(TkH(s.b[i])) \o <<SEPF>>]) \o <<Tok(")")>>
     [] s.k = "const" -> <<Tok("const"), Tok(s.s), Tok("=")>> \o TkE(s.a[1])
     [] s.k = "xs"    -> TkE(s.a[1])
     [] s.k = "if"    -> <<Tok("if")>> \o Hdr(s.d) \o TkE(s.a[1]) \o Block(s.b, BODYOPEN)
@@ -214,7 +216,7 @@ TkH(s) ==
                         \o Cat([i \in DOMAIN s.b |->
                                   LET c == s.b[i] IN
                                   (IF c.a = E0 THEN <<Tok("default")>> ELSE <<Tok("case")>> \o Exprs0(c.a)) \o <<TokB(":", "l", "O")>>
-                                  \o TkSs(c.b) \o (IF c.n = 1 THEN <<Tok("fallthrough"), SEP>> ELSE E0)])
+                                  \o (IF c.n = 1 THEN NoCommentAtEnd(TkSs(c.b)) \o <<Tok("fallthrough"), SEPF>> ELSE TkSs(c.b))])
                         \o <<CLOSE>>
     [] s.k = "try"   -> <<Tok("try")>> \o Block(s.b, OPEN) \o <<Tok("catch")>>
                         \o (IF s.s = "" THEN E0 ELSE <<TokG("(", "r"), Tok(s.s), TokG(")", "l")>>) \o Block(s.c, OPEN)
@@ -226,6 +228,7 @@ TkH(s) ==
                         \o (IF s.n = 0 THEN E0 ELSE <<TokG("(", "r"), Tok(s.a[1].s)>> \o TypeToks(IF s.n = 2 THEN "*P" ELSE "P") \o <<TokG(")", "l")>>)
                         \o <<Tok(s.s)>> \o Sig(s.d, s.c) \o Block(s.b, OPEN)
     [] s.k = "type"  -> <<Tok("type"), Tok(s.s)>> \o s.y
+NoCommentAtEnd(ts) == IF ts = E0 THEN ts ELSE [ts EXCEPT ![Len(ts)] = SEPF]
 TkS(s)   == TkH(s) \o <<SEP>>
 TkSs(ss) == IF ss = E0 THEN E0 ELSE TkS(Head(ss)) \o TkSs(Tail(ss))
 
